@@ -82,7 +82,8 @@ def run_spec(ctx, tag, cfg, timeout=1800):
             " MaxParts = %d\n MaxDol = %d\n MaxStack = %d\n"
             "INVARIANT EvalExactlyTheExprParts\nINVARIANT DollarParity\nINVARIANT DeadMeansSilent\nINVARIANT Emit\n"
             % (cfg["maxparts"], cfg["maxdol"], cfg["maxstack"]))
-        r = run_tlc("MCInterp", "MCInterp.cfg", wd, workers=1, timeout=timeout, java_opts=["-Xmx6g"])
+        # (one record per behaviour: the thorough configurations print a few GB)
+        r = run_tlc("MCInterp", "MCInterp.cfg", wd, workers=1, timeout=timeout, java_opts=["-Xmx6g"], max_output=12 << 30)
     finally:
         shutil.rmtree(wd, ignore_errors=True)
     if r.violation:
